@@ -1254,9 +1254,17 @@ func (l *Lowerer) callUnknownValue(ce *ast.CallExpr) ([]*Term, []types.Type) {
 	if sig != nil {
 		resTypes = tupleTypes(sig.Results())
 	}
-	// a function-typed parameter with a callspec in the contract
-	if id, ok := ast.Unparen(ce.Fun).(*ast.Ident); ok && l.fr.parent == nil {
-		if cs := l.p.contracts[l.fnKey+"."+id.Name]; cs != nil {
+	// a function-typed parameter, variable or field with a callspec in the contract (named by the identifier,
+	// or by the field name of a selector: x.f(...) -> "<function>.f")
+	fvName := ""
+	switch fx := ast.Unparen(ce.Fun).(type) {
+	case *ast.Ident:
+		fvName = fx.Name
+	case *ast.SelectorExpr:
+		fvName = fx.Sel.Name
+	}
+	if fvName != "" && l.fr.parent == nil {
+		if cs := l.p.contracts[l.fnKey+"."+fvName]; cs != nil {
 			fi := &FuncInfo{Key: cs.Key, Pkg: l.fr.fi.Pkg, Sig: sig}
 			return l.callContract(cs, fi, fv, ft, args, atys, ce), resTypes
 		}
